@@ -14,9 +14,11 @@ import os, sys, shutil, subprocess, tempfile, time
 
 HERE = os.path.dirname(os.path.abspath(__file__))
 ROOT = os.path.normpath(os.path.join(HERE, '..'))
+# the pristine Rust sources: repo-src/ inside a development copy, otherwise $KESTREL_REPO, otherwise /repo (only read, copied to a scratch directory)
+PRISTINE = os.path.join(ROOT, 'repo-src') if os.path.isdir(os.path.join(ROOT, 'repo-src')) else os.environ.get('KESTREL_REPO', '/repo')
 LEAN = os.path.join(ROOT, 'lean')
 GEN = os.path.join(LEAN, 'KestrelModel', 'GeneratedCli.lean')
-SRC = os.path.join(ROOT, 'repo-src')
+SRC = PRISTINE
 TARGETS = ['KestrelProofs.CliSrc', 'KestrelProps.CliSrc', 'KestrelProofs.CliCmdSrc', 'KestrelProps.CliCmdSrc',
            'KestrelProofs.CliStreamSrc', 'KestrelProps.CliStreamSrc', 'KestrelProofs.CliGenKeySrc', 'KestrelProps.CliGenKeySrc']
 
